@@ -259,7 +259,7 @@ class ExportQualifiers(Case):
     KINDS = {
         # kind: (func, constructor call with {q}/{a}/{b}, takes parent qualifiers, keys of the two identifiers, fixed extras)
         "feature": ("gene.feature.FeatureInterval.export_qualifiers",
-                    "FeatureInterval([1], [5], Strand.PLUS, qualifiers=dict(q), feature_name=a, feature_id=b)",
+                    "FeatureInterval([1], [5], Strand.PLUS, qualifiers=dict(q), feature_name=a, feature_id=b, feature_types=ft)",
                     True, ("feature_name", "feature_id"), {}),
         "transcript": ("gene.transcript.TranscriptInterval.export_qualifiers",
                        "TranscriptInterval([1], [5], Strand.PLUS, qualifiers=dict(q), transcript_symbol=a, transcript_id=b)",
@@ -296,12 +296,15 @@ class ExportQualifiers(Case):
         for key, val in list(zip(self.keys, (i.a, i.b))) + list(self.extras.items()):
             if val:
                 out.setdefault(key, set()).add(val)
+        if self.kind == "feature" and i.ft:
+            # a feature's row states ITS OWN types (the parent collection's union of all siblings' types is replaced)
+            out["feature_type"] = set(i.ft)
         return {k: sorted(v) for k, v in out.items()}
 
     def inputs(self, S):
         q = [(k, list(v)) for k, v in S.const("q")]
         pq = [(k, list(v)) for k, v in S.const("pq")]
-        return NS(q=q, pq=pq, a=S.const("a"), b=S.const("b"),
+        return NS(q=q, pq=pq, a=S.const("a"), b=S.const("b"), ft=list(S.const("ft")) if S.const("ft") is not None else None,
                   FeatureInterval=S.cls("gene.feature.FeatureInterval"),
                   FeatureIntervalCollection=S.cls("gene.feature.FeatureIntervalCollection"),
                   TranscriptInterval=S.cls("gene.transcript.TranscriptInterval"),
@@ -311,11 +314,16 @@ class ExportQualifiers(Case):
         k1, k2 = self.keys
         own = [[], [[k1, ["own"]]], [[k2, ["x", "own"]]], [["note", ["n"]], [k1, ["N"]]], [["note", ["n"]]]]
         par = [[], [[k1, ["parent"]]], [[k2, ["N"]], ["note", ["m"]]]] if self.takes_parent else [[]]
+        fts = [None]
+        if self.kind == "feature":
+            fts = [None, ["promoter"]]
+            par = par + [[["feature_type", ["operator", "promoter"]]]]  # union of the siblings' types, handed down
         for q in own:
             for pq in par:
                 for a in (None, "N", ""):
                     for b in (None, "I"):
-                        yield {"q": q, "pq": pq, "a": a, "b": b}
+                        for ft in fts:
+                            yield {"q": q, "pq": pq, "a": a, "b": b, "ft": ft}
 
     def observe(self, r):
         return [dict(x) for x in r]
